@@ -25,6 +25,9 @@ def check(chk, repo):
     chk.note("competition_loop", f"{comp.fn.qual}:{comp.loop.line}")
     chk.note("inlined", sorted(set(w.inlined)))
     check_seeding(rep, "", comp, repo)
+    from ..common import check_fresh_graph, check_model_premises
+    check_model_premises(rep, repo)
+    check_fresh_graph(rep, w, comps[0].loop.first_seq)
     check_fmax_competition(rep, "", comp)
     stats = run_kinds(rep, w)
     chk.note("kind_rule_instances", stats)
